@@ -26,7 +26,7 @@ func init() {
 		Rule:           "schemas: accepted AND rejected canonical cases (34 rule slots x 13 contexts incl. corruptions, C03 construct families, C08 rule sets of <= 2 rules on 10 node kinds, the AST family of C16, every kind of rule value as first / last rule of a rule object) x the FULL product of spelling dimensions: line end {LF,CRLF,CR} x indentation {none,2 spaces,tab} x user comments {none,# at line ends,### blocks} x annotation form {inline, /* */ one line, /* */ three lines} x rule names {bare,quoted} x trailing comma {no,yes} (324 spellings + 54 with tabs / runs of blanks in front of annotations, comments and commas and at line ends; a # comment also follows inline annotations and notes) + notes added under the full product of line end x comments x annotation form (27 spellings) + all rule permutations (<= 3 rules): Check verdict, AST (comments blanked) and the verdict of every probe document must equal the canonical spelling's. documents: each probe x {compact, spaced, newline-heavy, CRLF} x all property permutations (<= 3 keys) x string spellings {plain, \\uXXXX for every char, \\/}: verdict equal under every schema. Entirely reference-free (metamorphic). Non-trivial = distinct (schema, spelling) or (schema, document spelling).",
 		Run:            run,
 		Replay:         replay,
-		QuickBudget:    240 * time.Second,
+		QuickBudget:    400 * time.Second,
 		ThoroughBudget: 14 * time.Minute,
 		Assumptions:    []string{"comments inside rule objects or between a key and its colon, and intra-line blanks inside empty brackets, are not in the statement's list and are not generated"},
 	})
@@ -299,6 +299,7 @@ func hasNote(cs sc.Case) bool {
 }
 
 func run(c *ev.Ctx) {
+	unicodeDocuments(c)
 	sps := spellings(c.Thorough())
 	c.Bound("spellings", len(sps))
 	seen := map[string]bool{}
@@ -596,6 +597,15 @@ func replay(raw stdjson.RawMessage) (bool, string) {
 	var cs caseT
 	if err := stdjson.Unmarshal(raw, &cs); err != nil {
 		return false, err.Error()
+	}
+	var uc uniCase
+	if err := stdjson.Unmarshal(raw, &uc); err == nil && uc.Schema != "" {
+		s, r := lib.Check(lib.SchemaSpec{Text: uc.Schema})
+		if !r.OK {
+			return false, "schema rejected"
+		}
+		a, b := lib.Validate(s, uc.Base), lib.Validate(s, uc.Doc)
+		return a.OK != b.OK || b.Panic != "", fmt.Sprintf("%s -> %s ; %s -> %s", uc.Base, a, uc.Doc, b)
 	}
 	if cs.Doc != "" {
 		s, r := lib.Check(cs.Case.Spec())
